@@ -112,7 +112,9 @@ def C02(ctx):
     ctx.assumptions = ["error kind/position of a rejected pattern is not compared (documented as approximate)"]
     ctx.emit_replay("MC_PatEnum", "MC_PatEnum.dewey.%s.cfg" % t, "dewey-enum")
     ctx.exhaustive = True
-    ctx.record_validate("patdewey", q(ctx, 10000, 150000), "Tr_Pattern", "Tr_Pattern.cfg")
+    # (size budget: a pattern and two names with a base of 65 522 ... 70 000 bytes are about 900 000 JSON characters)
+    ctx.record_validate("patdewey", q(ctx, 10000, 150000), "Tr_Pattern", "Tr_Pattern.cfg",
+                        big=((1000000, 2900000) if ctx.quick else None))
     # history independence: related patterns x names, pattern-major and name-major, compiled patterns reused
     ctx.record_validate("patmatrix", q(ctx, 4000, 60000), "Tr_Pattern", "Tr_Pattern.cfg")
 
@@ -299,7 +301,8 @@ def C13(ctx):
     ctx.mc("MC_Digest", "MC_Digest.%s.cfg" % t)
     ctx.emit_replay("MC_Digest", "MC_Digest.sim.cfg", "sched-sim", workers=1,
                     simulate="num=%d" % q(ctx, 3000, 30000), seed=ctx.seed, coverage=False)
-    ctx.record_validate("digest", q(ctx, 3000, 40000), "Tr_Digest", "Tr_Digest.cfg")
+    ctx.record_validate("digest", q(ctx, 3000, 40000), "Tr_Digest", "Tr_Digest.cfg",
+                        big=((330000, 1500000) if ctx.quick else None))
     ctx.record_validate("algname", q(ctx, 500, 5000), "Tr_Digest", "Tr_Digest.cfg", name="algname")
     hashlib_crosscheck(ctx, q(ctx, 64, 320))
 
@@ -401,7 +404,9 @@ def C16(ctx):
     ctx.assumptions = ["lines with blanks between the key and '=' are not judged", "input is valid UTF-8 (invalid UTF-8 is reported by the reader as an error)"]
     ctx.emit_replay("MC_ScanIndex", "MC_ScanIndex.%s.cfg" % t, "scan-enum")
     ctx.exhaustive = True
-    ctx.record_validate("scanindex", q(ctx, 5000, 60000), "Tr_ScanIndex", "Tr_ScanIndex.cfg")
+    # (size budget: an index line of more than 64 KiB is about 450 000 JSON characters)
+    ctx.record_validate("scanindex", q(ctx, 5000, 60000), "Tr_ScanIndex", "Tr_ScanIndex.cfg",
+                        big=((700000, 2200000) if ctx.quick else None))
 
 
 PROPS["C16"] = C16
@@ -461,7 +466,10 @@ def EXT(ctx):
     ctx.rule = ("error variant and Display text of every rejecting entry point (Pattern, Dewey, PkgPath, Depend, Summary, "
                 "PlistEntry, Digest) on random rejected inputs, validated against Messages.tla")
     ctx.record_validate("errmsg", q(ctx, 10000, 100000), "Tr_Messages", "Tr_Messages.cfg")
+    # the values as values: Eq / Hash / Clone / Ord of PkgName, PkgPath, Pattern, Depend (Values.tla)
+    ctx.record_validate("values", q(ctx, 10000, 100000), "Tr_Values", "Tr_Values.cfg")
 
 
 PROPS["EXT"] = EXT
 TR_FOR_OP["errmsg"] = ("Tr_Messages", {})
+TR_FOR_OP["values"] = ("Tr_Values", {})
